@@ -87,6 +87,29 @@ DropFails(ev, st) ==
        [] k = "c13:missing_line_result" -> \A i \in 1..Len(ev.drops) :
                 LET kept == SeqToLines(st, (1..Len(ev.lines)) \ {ev.drops[i].dropped}, ev.lines) IN
                 IF AllFound(kept) THEN ev.drops[i].res.ret = Len(ev.lines) - 1 ELSE ev.drops[i].res.ret < 0 }
+\* ------------------------------------------------------------------ C08: subtree_serialize / subtree_deserialize
+\* The serialised image is a pure function of the state: EncBundle (OscWire.tla) of the model's elements.
+W == INSTANCE OscWire
+CharCode(c) == CASE c = "/" -> 47 [] c = "_" -> 95 [] c = "0" -> 48 [] c = "1" -> 49 [] c = "2" -> 50 [] c = "3" -> 51 [] c = "4" -> 52 [] c = "5" -> 53 [] c = "6" -> 54 [] c = "7" -> 55 [] c = "8" -> 56 [] c = "9" -> 57
+                 [] c = "a" -> 97 [] c = "b" -> 98 [] c = "c" -> 99 [] c = "d" -> 100 [] c = "e" -> 101 [] c = "f" -> 102 [] c = "g" -> 103 [] c = "h" -> 104 [] c = "i" -> 105 [] c = "j" -> 106 [] c = "k" -> 107 [] c = "l" -> 108 [] c = "m" -> 109
+                 [] c = "n" -> 110 [] c = "o" -> 111 [] c = "p" -> 112 [] c = "q" -> 113 [] c = "r" -> 114 [] c = "s" -> 115 [] c = "t" -> 116 [] c = "u" -> 117 [] c = "v" -> 118 [] c = "w" -> 119 [] c = "x" -> 120 [] c = "y" -> 121 [] c = "z" -> 122
+StrBytes(str) == [i \in 1..Len(str) |-> CharCode(SubSeq(str, i, i))]
+SerArgW(e) == CASE e.ty \in {"T", "F"} -> [t |-> e.ty, v |-> <<>>, z |-> 0]
+                [] e.ty = "s" -> [t |-> "s", v |-> e.v, z |-> 0]
+                [] e.ty = "f" -> [t |-> "f", v |-> FloatLimbs(e.v), z |-> 0]
+                [] OTHER -> [t |-> e.ty, v |-> IntLimbs(e.v), z |-> 0]
+SerImage(st) == LET es == SerElems(st) IN
+                W!EncBundle(SerTimeTag, [i \in 1..Len(es) |-> [k |-> "m", addr |-> StrBytes(es[i].addr), args |-> << SerArgW(es[i]) >>]])
+SerFails(ev, st) ==
+  LET img == SerImage(st) IN
+  {k \in {"c08:serialized_image", "c08:serialized_size", "c08:serialized_bundle_as_read_back", "c08:serialize_capacity", "c08:serialize_guard", "c08:deserialized_state", "c08:state_changed_by_serializing"} :
+   ~ CASE k = "c08:serialized_image" -> ev.bytes = img
+       [] k = "c08:serialized_size" -> ev.ret = Len(img)
+       [] k = "c08:serialized_bundle_as_read_back" -> ev.is_bundle /\ ev.nelems_buf = Len(SerElems(st)) /\ ev.mlen_buf = Len(img)
+       [] k = "c08:serialize_capacity" -> \A i \in 1..Len(ev.caps) : ev.caps[i].ret = (IF ev.caps[i].cap >= Len(img) THEN Len(img) ELSE 0) /\ (ev.caps[i].cap >= Len(img) => ev.caps[i].same)
+       [] k = "c08:serialize_guard" -> \A i \in 1..Len(ev.caps) : ev.caps[i].guard /\ ev.caps[i].asan = 0
+       [] k = "c08:deserialized_state" -> ev.loaded = Deserialized(st)
+       [] k = "c08:state_changed_by_serializing" -> ev.state = st }
 RawFails(ev) == {k \in {"c12:bad_file_accepted"} : ~ (ev.ret < 0) }
 Mismatch(ev, before, after) ==
   CASE ev.op = "set" -> SetFails(ev, before, after)
@@ -94,6 +117,7 @@ Mismatch(ev, before, after) ==
     [] ev.op = "save" -> SaveFails(ev, after)
     [] ev.op = "saveload" -> SaveFails(ev, after) \cup PermFails(ev, after) \cup DropFails(ev, after)
     [] ev.op = "loadraw" -> RawFails(ev)
+    [] ev.op = "serialize" -> SerFails(ev, after)
     [] OTHER -> {}
 Judge == (l <= 1) \/ LET m == Mismatch(Evs[l - 1], sp, s) \cup (IF Evs[l - 1].asan # 0 THEN {"memory_error"} ELSE {}) IN m = {} \/ PrintT(<<"REJECT", x, m, l - 1>>)
 =============================================================================
